@@ -17,7 +17,7 @@ LEVEL_NOTE = 'trusted: functools/itertools'
 
 
 def shards(tier, seed):
-    N = 70 if tier == 'quick' else 300
+    N = 70 if tier == 'quick' else 600
     return [{'name': f'f{k}', 'f': k, 'N': N} for k in range(4)]
 
 
